@@ -24,6 +24,9 @@ type c07Registry struct {
 	base  map[string]int    // registered profile name -> base profile (1 / 2)
 }
 
+// c07Reused is the one Evidence that decodes every envelope of the process.
+var c07Reused = &psatoken.Evidence{}
+
 // c07OIDName names a P2-derived profile by an OID (legal for eat_profile).
 const c07OIDName = "1.3.6.1.4.1.4128.77.6"
 
@@ -141,7 +144,7 @@ func runC07(c *mon.Ctx) {
 	}
 	c.SetAdd("registry_configurations", reg.name)
 	c.Count("config:" + reg.name)
-	c.Rule("one worker process per registry configuration (base profiles only; + P2-based extension; + P2- and P1-based extensions; + 8 further P2-based profiles sharing the JSON profile member and one P2-based profile named by an OID (JSON determinate, CBOR NO-VERDICT); + 4 P2-based and 4 P1-based further profiles). Before the tokens, four claims types without usable profile field (none at all, no JSON tag, a field merely named Profile, a claim whose key merely starts with the profile key's digits) are offered (must be refused and leave nothing behind); the register (hook H1) must hold exactly the entries this configuration made, each handing out claims that report its name; an impostor profile is offered under every taken name (must be refused; all later lookups see the original implementation). Tokens = valid and rule-breaking claims-sets of every registered profile, serialised to CBOR and to JSON by the harness, with the profile claim: a registered name / absent / an unregistered name / the name of a profile not registered in this configuration / another base profile's name / a non-text value / present under both profiles' keys / null; plus sets that are valid only under the *other* base profile's rules (P2 with EAN-13 reference, P1 with short or no boot seed). Oracle (determinate cases): the dynamic type and canonical profile of the result of DecodeClaimsFromCBOR/JSON must be those registered under the declared name, P1 when nothing is declared, an error for an unregistered value; the validating decoders accept iff the set is valid under the declared profile's rules and an accepted token's GetProfile() returns the declared name (P1's when none); CBOR and JSON must agree; tokens of the base profiles are also decoded with the type's own unmarshaller into an object from NewClaims (profile pre-set) and compared with the model; NewClaims(p) returns the registered type, reports p, and fails for unregistered names. In CBOR the profile claim is key 265, so a token carrying BOTH 265 and P1's -75000 is judged by 265 (P2 name -> P2 implementation, unregistered -> error); in JSON a quarter of the profile strings are spelled with escape sequences (same value); in a quarter of the CBOR tokens the integer keys are in a longer-than-necessary form. A registered P1-derived profile named under key 265 of a P1-keyed token selects that implementation (valid iff the set is and -75000 is absent); a JSON null profile member on a profile-1 document declares nothing (profile 1 assumed). NO-VERDICT (counted; only 'never accepted under another profile' is asserted): null profile in CBOR / on a P2 document, P1 name under key 265, JSON documents carrying both members with one unregistered, both members present with one unknown, a P1-derived extension in CBOR (not selectable by design: its name lives under -75000). distinct_nontrivial = distinct (configuration, format, base, declaration class, validity class) signatures")
+	c.Rule("one worker process per registry configuration (base profiles only; + P2-based extension; + P2- and P1-based extensions; + 8 further P2-based profiles sharing the JSON profile member and one P2-based profile named by an OID (JSON determinate, CBOR NO-VERDICT); + 4 P2-based and 4 P1-based further profiles). Before the tokens, four claims types without usable profile field (none at all, no JSON tag, a field merely named Profile, a claim whose key merely starts with the profile key's digits) are offered (must be refused and leave nothing behind); the register (hook H1) must hold exactly the entries this configuration made, each handing out claims that report its name; an impostor profile is offered under every taken name (must be refused; all later lookups see the original implementation). Tokens = valid and rule-breaking claims-sets of every registered profile, serialised to CBOR and to JSON by the harness, with the profile claim: a registered name / absent / an unregistered name / the name of a profile not registered in this configuration / another base profile's name / a non-text value / present under both profiles' keys / null; plus sets that are valid only under the *other* base profile's rules (P2 with EAN-13 reference, P1 with short or no boot seed). Oracle (determinate cases): the dynamic type and canonical profile of the result of DecodeClaimsFromCBOR/JSON must be those registered under the declared name, P1 when nothing is declared, an error for an unregistered value; the validating decoders accept iff the set is valid under the declared profile's rules and an accepted token's GetProfile() returns the declared name (P1's when none); CBOR and JSON must agree; tokens of the base profiles are also decoded with the type's own unmarshaller into an object from NewClaims (profile pre-set) and compared with the model; NewClaims(p) returns the registered type, reports p, and fails for unregistered names. In CBOR the profile claim is key 265, so a token carrying BOTH 265 and P1's -75000 is judged by 265 (P2 name -> P2 implementation, unregistered -> error); in JSON a quarter of the profile strings are spelled with escape sequences (same value); in a quarter of the CBOR tokens the integer keys are in a longer-than-necessary form. A registered P1-derived profile named under key 265 of a P1-keyed token selects that implementation (valid iff the set is and -75000 is absent); a JSON null profile member on a profile-1 document declares nothing (profile 1 assumed). NO-VERDICT (counted; only 'never accepted under another profile' is asserted): null profile in CBOR / on a P2 document, P1 name under key 265, JSON documents carrying both members with one unregistered, both members present with one unknown, a P1-derived extension in CBOR (not selectable by design: its name lives under -75000). Every CBOR token is also sent as the payload of a COSE_Sign1 envelope to a fresh Evidence and to ONE Evidence reused for all tokens of the process: outcome, implementation, canonical profile and content must equal those of the bare claims-set. distinct_nontrivial = distinct (configuration, format, base, declaration class, validity class) signatures")
 	g := model.NewGen(c.Seed*4421 + int64(c.Shard))
 	// claims types without identifiable profile field / without JSON tag on it are
 	// refused - and leave nothing behind (the register check below sees any residue)
@@ -626,6 +629,36 @@ func c07Check(c *mon.Ctx, reg *c07Registry, format string, input []byte, a *mode
 		return
 	}
 	c.Eval()
+	// COSE route (seeded fault C07-u: UnmarshalCOSE decoding into the claims object
+	// the Evidence already holds, bypassing the register): the same claims bytes as
+	// payload of an envelope, decoded by a fresh Evidence and by ONE Evidence reused
+	// for every token of this process, must be dispatched exactly like the bare
+	// claims-set (same outcome, implementation, canonical profile, content).
+	if format == "cbor" {
+		tok := sign1Bytes([]byte{0xa1, 0x01, 0x26}, nil, input, []byte("not-verified-here-64-bytes-of-signature-are-not-needed-to-decode"))
+		for ri, ev := range []*psatoken.Evidence{{}, c07Reused} {
+			var cerr error
+			if pn, pv, fr := mon.Guard(func() { cerr = ev.UnmarshalCOSE(tok) }); pn {
+				c.Violation("C07/panic/"+mon.PanicKey(fr), "panic while decoding an envelope", map[string]any{"panic": pv, "frame": fr, "sig": sig})
+				break
+			}
+			c.Eval()
+			route := []string{"fresh-evidence", "reused-evidence"}[ri]
+			c.Count("cose-route:" + route)
+			d := map[string]any{"sig": sig, "config": reg.name, "payload_hex": mon.Hex(input), "bare_decode_err": fmt.Sprint(err), "cose_decode_err": fmt.Sprint(cerr), "route": route}
+			switch {
+			case (err == nil) != (cerr == nil):
+				c.Violation("C07/cose/outcome-differs-from-bare-claims/"+route, "the envelope's payload is dispatched differently from the same bytes given to DecodeClaimsFromCBOR", d)
+			case err == nil && (typeOf(ev.Claims) != typeOf(x) || canonicalOf(ev.Claims) != canonicalOf(x)):
+				c.Violation("C07/cose/dispatched-to-other-profile/"+route, fmt.Sprintf("payload decoded by %T/%q inside the envelope, by %T/%q bare", ev.Claims, canonicalOf(ev.Claims), x, canonicalOf(x)), d)
+			case err == nil:
+				want, got := obs.Observe(x), obs.Observe(ev.Claims)
+				if df := model.ObsDiff(&want, &got); df != "" {
+					c.Violation("C07/cose/content-differs-from-bare-claims/"+route, "claims decoded from the envelope differ from the same payload decoded bare: "+df, d)
+				}
+			}
+		}
+	}
 	det := func() map[string]any {
 		d := map[string]any{"sig": sig, "config": reg.name, "format": format, "expected": e.verdict + ":" + e.name, "why": e.why, "decode_err": fmt.Sprint(err), "validating_err": fmt.Sprint(errV)}
 		if format == "json" {
